@@ -176,6 +176,18 @@ void drv_apply(const char* op)
       String s = Unicode::toString((uint32)(from + i));
       b.add((const unsigned char*)(const char*)s, (int)s.length(), true);
     }
+    // the array overloads (toString(const uint32*, usize), append(const uint32*, usize, String&)) must produce the
+    // concatenation of the single encodings and report success exactly when every single append does (counted in strdiff)
+    if(n > 0)
+    {
+      uint32* arr = (uint32*)malloc(sizeof(uint32) * (size_t)n);
+      String cat, pre("x"); bool all = true;
+      for(long i = 0; i < n; ++i) { arr[i] = (uint32)(from + i); String one; all &= Unicode::append(arr[i], one); cat.append(one); }
+      String bulk = Unicode::toString(arr, (usize)n);
+      bool okb = Unicode::append(arr, (usize)n, pre);
+      if(bulk != cat || pre != String("x") + cat || okb != all) ++b.strdiff;
+      free(arr);
+    }
     j_begin(op); j_int("from", from); j_int("n", n); b.emit("enc"); j_end();
   }
   else if(!strcmp(op, "bs"))
